@@ -98,6 +98,9 @@ type lockedBuf struct {
 	// senders queue up behind the stream's writer goroutine meanwhile).
 	gate func(n int)
 	n    int
+	// failAt, when positive, makes the failAt-th Write fail (once): a full disk, a closed pipe.
+	failAt, writes int
+	failed         bool
 }
 
 func (l *lockedBuf) Write(p []byte) (int, error) {
@@ -107,6 +110,11 @@ func (l *lockedBuf) Write(p []byte) (int, error) {
 	}
 	l.mu.Lock()
 	defer l.mu.Unlock()
+	l.writes++
+	if l.failAt > 0 && l.writes == l.failAt {
+		l.failed = true
+		return 0, errors.New("write: no space left on device")
+	}
 	return l.b.Write(p)
 }
 func (l *lockedBuf) Bytes() []byte {
@@ -260,6 +268,9 @@ func runC19(k *kernel.K) {
 		k.Note("msg%d id=%s req=%v body=%dB chunks=%v eofWith=%v errAt=%d(with %v) reads=%v maxReads=%d headers=%d", i, m.id, m.isReq, size, m.under.chunks, m.under.eofWith, m.under.errAt, m.under.errWith, m.sizes, m.maxReads, len(m.header))
 	}
 	interleave := w.Chance(2, 3) || large
+	if w.Chance(1, 6) {
+		sink.failAt = 1 + w.Draw(30)
+	}
 	if w.Chance(1, 3) {
 		k.Probe("slow_sink")
 		sink.gate = func(n int) { k.Park(fmt.Sprintf("sink write#%06d", n)) }
@@ -367,6 +378,27 @@ func runC19(k *kernel.K) {
 	}
 	k.Settle()
 	raw := sink.Bytes()
+	sink.mu.Lock()
+	sinkFailed := sink.failed
+	sink.mu.Unlock()
+	if sinkFailed {
+		// One write of the sink failed: the log has a hole, which is not judged. What must still
+		// hold is that logging stays out of the way - every read through the wrapper returns what
+		// the underlying body returned, and every call returns.
+		k.FaultFired("sink_write_fails_once")
+		for _, m := range msgs {
+			desc := fmt.Sprintf("message %d (id %s, request=%v, body %dB)", m.idx, m.id[:8], m.isReq, len(m.under.data))
+			mu.Lock()
+			done := m.done
+			mu.Unlock()
+			if !done {
+				k.Fail("C19.wrapper_transparent", map[string]string{"sink_write_failed": "true"}, "%s: one write of the log's sink failed (write #%d); the consumer's read through the logging wrapper (or the call that logs the message) has not returned at quiescence", desc, sink.failAt)
+			} else if !closedEarly && fmt.Sprint(m.log) != fmt.Sprint(m.under.log) {
+				k.Fail("C19.wrapper_transparent", map[string]string{"sink_write_failed": "true"}, "%s: one write of the log's sink failed; reads through the logging wrapper returned %v, the underlying body returned %v", desc, clip(m.log), clip(m.under.log))
+			}
+		}
+		return
+	}
 	// ---- oracle, part 1 ----
 	frames, perr := parseMarbl(raw)
 	if perr != nil {
